@@ -200,6 +200,46 @@ def run_roots(task, tier, seed, col):
 
 # ------------------------------------------------------------------------------------- laws
 
+def _entry_points(ureg, nit, x, a, b, ref):
+    """Every way of asking for the same conversion gives the answer of ureg.convert(x, a, b): Quantity.to / ito / m_as, the same with a
+    context name passed along (a context never changes a conversion inside one dimension), in-place and ndarray forms."""
+    def same(v, what):
+        ok = (v == ref) if nit == "Fraction" else (abs(float(v) - float(ref)) <= 1e-12 * abs(float(ref)) + 1e-300)
+        if not ok:
+            raise Violation(f"entry_points_disagree:{what.split('(')[0]}", f"{what} of {x!r} {a} -> {b} gives {v!r}, ureg.convert gives {ref!r}")
+
+    Q = ureg.Quantity
+    same(Q(x, a).to(b).magnitude, "Quantity.to")
+    same(Q(x, a).m_as(b), "Quantity.m_as")
+    q = Q(x, a)
+    q.ito(b)
+    same(q.magnitude, "Quantity.ito")
+    same(Q(x, a).to(b, "sp").magnitude, "Quantity.to(ctx)")
+    q = Q(x, a)
+    q.ito(b, "sp")
+    same(q.magnitude, "Quantity.ito(ctx)")
+    with ureg.context("sp"):
+        same(Q(x, a).to(b).magnitude, "Quantity.to(in context)")
+    if nit == "float":
+        import numpy as np
+
+        ratio = float(ref) / float(x) if x else None
+        if ratio is not None:
+            arr = np.array([float(x), 2 * float(x), 0.5])
+            want = arr * ratio
+            for what, fn in (("convert(ndarray)", lambda: ureg.convert(arr.copy(), a, b)), ("convert(ndarray,inplace)", lambda: ureg.convert(arr.copy(), a, b, inplace=True)),
+                             ("ito(ndarray)", lambda: (lambda qq: (qq.ito(b), qq.magnitude)[1])(Q(arr.copy(), a))), ("to(ndarray)", lambda: Q(arr.copy(), a).to(b).magnitude)):
+                got = fn()
+                if not np.allclose(got, want, rtol=1e-12, atol=0):
+                    raise Violation(f"entry_points_disagree:{what.split('(')[0]}:ndarray", f"{what} {a} -> {b}: {got!r}, expected {want!r}")
+            # integer arrays cannot hold a converted value in place: numpy's casting error or a correct result, never truncated numbers
+            iarr = np.array([1500, 250, 3])
+            for what, fn in (("ito(int ndarray)", lambda: (lambda qq: (qq.ito(b), qq.magnitude)[1])(Q(iarr.copy(), a))), ("convert(int ndarray,inplace)", lambda: ureg.convert(iarr.copy(), a, b, inplace=True))):
+                s_, got = attempt(fn)
+                if s_ == "ok" and not np.allclose(np.asarray(got, dtype=float), iarr * ratio, rtol=1e-12, atol=0):
+                    raise Violation("inplace_conversion_of_integer_array_truncates", f"{what} {a} -> {b}: {got!r}, exact {iarr * ratio!r}")
+
+
 def case_law(case):
     R = env.R()
     nit, a, b, c, x = case["nit"], case["a"], case["b"], case["c"], case["x"]
@@ -211,6 +251,7 @@ def case_law(case):
     ac = ureg.convert(x, a, c)
     aba = ureg.convert(ab, b, a)
     n_ops = sum(r.nops for r in rs) * 2
+    _entry_points(ureg, nit, x, a, b, ab)
     if nit == "Fraction" and exactable:
         if abc != ac:
             raise Violation("law:path_independence", f"{a}->{b}->{c} gives {abc}, {a}->{c} gives {ac}")
